@@ -588,12 +588,15 @@ func (c *ctx) checkO(co caseOpt, ns string, body []byte, progs []Prog, class str
 			wantN, wantEnd = k+1, "output-closed"
 			break
 		}
-		if st == "broken" && needs {
+		if st == "broken" && (needs || len(w) > 0) {
 			wantN, wantEnd = k+1, "output-broken"
 			break
 		}
+		// a handler that returns with an element of its own still open (or after an end tag the
+		// encoder refused) leaves the stream inside an element: the session ends
 		if st == "open" && Unbalanced(w) {
-			st = "broken"
+			wantN, wantEnd = k+1, "output-broken"
+			break
 		}
 		if e.dirty != "" {
 			break // the element itself ends the session (ex.end)
@@ -1450,7 +1453,6 @@ func Run(r *common.Run) error {
 		// a stream-level construct inside a response ends the session with its error
 		c.checkO(caseOpt{opt: Opts{FailAfter: -1}, pends: two[:1]}, ns, []byte(`<iq type="result" id="p1"><query xmlns="urn:q"><item/><!--c--><item/></query></iq>`+followers[0]+"</stream:stream>"), nil, "pending")
 	}
-
 
 	// sessions that use the WebSocket subprotocol (RFC 7395): the framing elements are stream
 	// level there -- <close/> is the peer's closing element, <open/> (any other framing element)
